@@ -74,11 +74,19 @@ func c09Render(kinds []string, keys map[string]gossh.PublicKey, finalNL bool, rn
 			if rng.Intn(2) == 0 {
 				l += " user@host comment"
 			}
+			if k == "B" && rng.Intn(3) == 0 {
+				// the text of another key (C, listed nowhere) inside an option value of this entry lists nothing either
+				l = `environment="OLDKEY=` + strings.TrimSpace(string(gossh.MarshalAuthorizedKey(keys["C"]))) + `" ` + l
+			}
 			lines = append(lines, l)
 		case "Aopt":
 			lines = append(lines, `command="/bin/true",no-pty,from="10.0.0.*" `+strings.TrimSpace(string(gossh.MarshalAuthorizedKey(keys["A"])))+" with options")
 		case "cmt":
-			lines = append(lines, []string{"# a comment", "#ssh-rsa AAAA commented out", "   # indented comment"}[rng.Intn(3)])
+			// a comment may be a key that was commented out: the text of a real key (A, which another line may list, or C,
+			// which no line lists) behind a '#' lists nothing
+			textOf := func(k string) string { return strings.TrimSpace(string(gossh.MarshalAuthorizedKey(keys[k]))) }
+			lines = append(lines, []string{"# a comment", "#ssh-rsa AAAA commented out", "   # indented comment",
+				"# " + textOf("A") + " old laptop", "#" + textOf("C"), "# " + textOf("C") + " revoked"}[rng.Intn(6)])
 		case "blank":
 			lines = append(lines, []string{"", "", "   ", "\t"}[rng.Intn(4)])
 		case "junk":
